@@ -18,12 +18,13 @@ Definition res (c : conn) (cid : nat) : Prop :=
   (exists k, In k (calls c) /\ c_id k = cid /\ c_timer k <> None).
 
 Definition trel (k k' : call) : Prop :=
-  c_id k' = c_id k /\ c_types k' = c_types k /\ (c_timer k' = c_timer k \/ c_timer k' = None).
+  c_id k' = c_id k /\ c_types k' = c_types k /\ (c_timer k' = c_timer k \/ c_timer k' = None) /\
+  c_sent_at k' = c_sent_at k /\ c_timeout k' = c_timeout k.
 Lemma trel_refl k : trel k k.
-Proof. unfold trel. auto. Qed.
+Proof. unfold trel. auto 6. Qed.
 Lemma trel_trans a b c : trel a b -> trel b c -> trel a c.
 Proof.
-  intros (A1 & A2 & A3) (B1 & B2 & B3). split; [congruence|]. split; [congruence|].
+  intros (A1 & A2 & A3 & A4 & A5) (B1 & B2 & B3 & B4 & B5). split; [congruence|]. split; [congruence|]. split; [|split; congruence].
   destruct B3 as [B3|B3]; [|right; exact B3]. destruct A3 as [A3|A3]; [left|right]; congruence.
 Qed.
 
@@ -31,7 +32,8 @@ Record P (c c' : conn) : Prop := {
   p_n : next_cid c' = next_cid c;
   p_c : Forall2 trel (calls c) (calls c');
   p_h : forall ty cid, In (ty, HCall cid) (handlers c') -> In (ty, HCall cid) (handlers c);
-  p_w : forall w, In w (waiters c') -> In w (waiters c) }.
+  p_w : forall w, In w (waiters c') -> In w (waiters c);
+  p_now : now c' = now c }.
 
 Lemma F2_refl l : Forall2 trel l l.
 Proof. induction l; constructor; [apply trel_refl|assumption]. Qed.
@@ -63,16 +65,16 @@ Qed.
 Lemma P_refl c : P c c.
 Proof. constructor; auto. apply F2_refl. Qed.
 Lemma P_trans a b c : P a b -> P b c -> P a c.
-Proof. intros [A1 A2 A3 A4] [B1 B2 B3 B4]. constructor; [congruence|eapply F2_trans; eassumption|auto|auto]. Qed.
+Proof. intros [A1 A2 A3 A4 A5] [B1 B2 B3 B4 B5]. constructor; [congruence|eapply F2_trans; eassumption|auto|auto|congruence]. Qed.
 
 (* the part of the state that P looks at; the handler table only through its call entries *)
 Definition is_hcall (p : N * hid) : bool := match snd p with HCall _ => true | _ => false end.
-Definition pv (c : conn) := (next_cid c, calls c, filter is_hcall (handlers c), waiters c).
+Definition pv (c : conn) := (next_cid c, calls c, filter is_hcall (handlers c), waiters c, now c).
 Lemma in_hcall ty cid l : In (ty, HCall cid) l <-> In (ty, HCall cid) (filter is_hcall l).
 Proof. rewrite filter_In. cbn. tauto. Qed.
 Lemma P_pv c c' : pv c' = pv c -> P c c'.
 Proof.
-  unfold pv. intro E. injection E as E1 E2 E3 E4. constructor; [exact E1|rewrite E2; apply F2_refl| |rewrite E4; auto].
+  unfold pv. intro E. injection E as E1 E2 E3 E4 E5. constructor; [exact E1|rewrite E2; apply F2_refl| |rewrite E4; auto|exact E5].
   intros ty cid H. apply (proj2 (in_hcall ty cid (handlers c))). rewrite <- E3. apply (proj1 (in_hcall ty cid (handlers c'))). exact H.
 Qed.
 
@@ -109,14 +111,14 @@ Lemma pv_finish_task c t r : pv (fst (finish_task c t r)) = pv c.
 Proof. unfold finish_task. cbn [fst]. apply pv_set_task. Qed.
 
 Lemma trel_fail_waiter e k : trel k (fail_waiter e k).
-Proof. unfold fail_waiter. destruct (c_fut k); unfold trel; cbn; auto. Qed.
+Proof. unfold fail_waiter. destruct (c_fut k); unfold trel; cbn; auto 6. Qed.
 
 Lemma P_pre_close c : P c (pre_close c).
 Proof.
   unfold pre_close.
   match goal with |- P c (set_finish_future (set_start_future ?x)) =>
     apply (P_trans c x); [|apply P_pv; rewrite pv_set_finish_future, pv_set_start_future; reflexivity] end.
-  constructor; cbn; [reflexivity| |auto|intros w []].
+  constructor; cbn; [reflexivity| |auto|intros w []|reflexivity].
   apply F2_map. intro k. destruct (existsb _ _); [apply trel_fail_waiter|apply trel_refl].
 Qed.
 Lemma P_cleanup c : P c (fst (cleanup c)).
@@ -198,7 +200,7 @@ Proof.
   destruct (c_fut k); try apply P_refl.
   constructor; cbn; auto.
   apply (upd_const_unique_t (calls c) cid k); [exact U|exact Eg|].
-  unfold trel. destruct (eval_pred (c_stop k) m), (eval_pred (c_append k) m); cbn; auto.
+  unfold trel. destruct (eval_pred (c_stop k) m), (eval_pred (c_append k) m); cbn; auto 6.
 Qed.
 
 Lemma P_call_handler c h m : uniq c -> P c (fst (fst (call_handler c h m))).
@@ -253,7 +255,7 @@ Proof.
   match goal with |- context [fold_left ?f ?l ?x] => set (c2 := fold_left f l x) end.
   assert (H : P c c2).
   { unfold c2. eapply P_trans; [|apply P_fold_remove].
-    apply P_upd_call. intro k. unfold trel. cbn. auto. }
+    apply P_upd_call. intro k. unfold trel. cbn. auto 6. }
   eapply P_trans; [exact H|]. constructor; cbn; auto; [apply F2_refl|]. intros w Hw. apply filter_In in Hw. tauto.
 Qed.
 
@@ -268,7 +270,7 @@ Proof.
   2: destruct (disc_wait_done c); cbn [fst]; [apply P_refl|apply P_pv; reflexivity].
   all: destruct (get_call c cid) as [kk|]; [|cbn [fst]; apply P_refl];
        destruct (c_fut kk); cbn [fst]; try apply P_refl;
-       apply P_upd_call; intro x; unfold trel; cbn; auto.
+       apply P_upd_call; intro x; unfold trel; cbn; auto 6.
 Qed.
 Lemma P_cancel_task c t : P c (cancel_task c t).
 Proof.
@@ -383,7 +385,7 @@ Proof.
   - lia.
   - intros ty cid _. apply A3.
   - intros cid _. apply A4.
-  - intros k' H _ T. destruct (F2_in _ _ _ A2 H) as (k & I & E1 & _ & E3). exists k. repeat split; [exact I|congruence|].
+  - intros k' H _ T. destruct (F2_in _ _ _ A2 H) as (k & I & E1 & _ & E3 & _). exists k. repeat split; [exact I|congruence|].
     destruct E3 as [E3|E3]; congruence.
 Qed.
 Lemma Q_res c c' cid : Q c c' -> (cid < next_cid c)%nat -> res c' cid -> res c cid.
@@ -398,7 +400,7 @@ Proof.
   intros [A1 A2 A3 A4] [(ty & H)|[H|(k' & H & E & T)]].
   - left. exists ty. apply A3; assumption.
   - right. left. apply A4; assumption.
-  - right. right. destruct (F2_in _ _ _ A2 H) as (k & I & E1 & _ & E3). exists k. repeat split; [exact I|congruence|].
+  - right. right. destruct (F2_in _ _ _ A2 H) as (k & I & E1 & _ & E3 & _). exists k. repeat split; [exact I|congruence|].
     destruct E3 as [E3|E3]; congruence.
 Qed.
 
@@ -421,13 +423,46 @@ Proof.
   - intros w H. rewrite A1. apply B4, A4, H.
 Qed.
 
-Definition R (c c' : conn) : Prop := Q c c' /\ (OT c -> OT c').
+(* the timers of calls: a call record keeps the time it was sent and its time-out, its timer is kept or cleared; a record that
+   appears has its timer at sent + time-out and was sent no later than now *)
+Definition cinv (k : call) : Prop := forall d, c_timer k = Some d -> d = c_sent_at k + c_timeout k.
+Definition srel (k k' : call) : Prop :=
+  c_sent_at k' = c_sent_at k /\ c_timeout k' = c_timeout k /\ (c_timer k' = c_timer k \/ c_timer k' = None).
+Definition Kc (c c' : conn) : Prop :=
+  forall k', In k' (calls c') -> (exists k, In k (calls c) /\ srel k k') \/ (cinv k' /\ c_sent_at k' <= now c').
+Lemma srel_refl k : srel k k.
+Proof. unfold srel. auto. Qed.
+Lemma Kc_refl c : Kc c c.
+Proof. intros k' H. left. exists k'. split; [exact H|apply srel_refl]. Qed.
+Lemma cinv_srel k k' : srel k k' -> cinv k -> cinv k'.
+Proof. intros (A1 & A2 & A3) H d Hd. rewrite A1, A2. apply H. destruct A3 as [A3|A3]; congruence. Qed.
+Lemma Kc_trans a b c : Kc a b -> Kc b c -> now b <= now c -> Kc a c.
+Proof.
+  intros HA HB N k'' H. destruct (HB k'' H) as [(k' & H' & S')|F]; [|right; exact F].
+  destruct (HA k' H') as [(k & H0 & S0)|[F1 F2]].
+  - left. exists k. split; [exact H0|]. destruct S0 as (A1 & A2 & A3). destruct S' as (B1 & B2 & B3).
+    split; [congruence|]. split; [congruence|]. destruct B3 as [B3|B3]; [|right; exact B3]. destruct A3 as [A3|A3]; [left|right]; congruence.
+  - right. split; [eapply cinv_srel; eassumption|]. destruct S' as (B1 & _). rewrite B1. lia.
+Qed.
+Lemma P_Kc c c' : P c c' -> Kc c c'.
+Proof.
+  intros HP k' H. left. destruct (F2_in _ _ _ (p_c _ _ HP) H) as (k & I & _ & _ & T & S1 & S2). exists k. split; [exact I|].
+  split; [exact S1|]. split; [exact S2|exact T].
+Qed.
+
+Record R (c c' : conn) : Prop := {
+  r_q : Q c c';
+  r_o : OT c -> OT c';
+  r_k : Kc c c';
+  r_n : now c <= now c' }.
 Lemma R_refl c : R c c.
-Proof. split; [apply Q_refl|auto]. Qed.
+Proof. constructor; [apply Q_refl|auto|apply Kc_refl|lia]. Qed.
 Lemma R_trans a b c : R a b -> R b c -> R a c.
-Proof. intros [A1 A2] [B1 B2]. split; [eapply Q_trans; eassumption|auto]. Qed.
+Proof.
+  intros [A1 A2 A3 A4] [B1 B2 B3 B4]. constructor; [eapply Q_trans; eassumption|auto|eapply Kc_trans; eassumption|lia].
+Qed.
 Lemma P_R c c' : P c c' -> R c c'.
-Proof. intro H. split; [apply P_Q; exact H|apply P_OT; exact H]. Qed.
+Proof. intro H. constructor; [apply P_Q; exact H|apply P_OT; exact H|apply P_Kc; exact H|rewrite (p_now _ _ H); lia]. Qed.
 
 (* registering the handlers of a new call *)
 Lemma in_fold_add l h : forall c p, In p (handlers (fold_left (fun a ty => add_handler a ty h) l c)) ->
@@ -441,10 +476,11 @@ Proof.
 Qed.
 Lemma fold_add_keeps l h : forall c, calls (fold_left (fun a ty => add_handler a ty h) l c) = calls c /\
   next_cid (fold_left (fun a ty => add_handler a ty h) l c) = next_cid c /\
-  waiters (fold_left (fun a ty => add_handler a ty h) l c) = waiters c.
+  waiters (fold_left (fun a ty => add_handler a ty h) l c) = waiters c /\
+  now (fold_left (fun a ty => add_handler a ty h) l c) = now c.
 Proof.
   induction l as [|ty l IHl]; intro c; cbn [fold_left]; [auto|].
-  destruct (IHl (add_handler c ty h)) as (A & B & D). rewrite A, B, D.
+  destruct (IHl (add_handler c ty h)) as (A & B & D & F). rewrite A, B, D, F.
   unfold add_handler. destruct (existsb _ _); auto.
 Qed.
 
@@ -462,8 +498,8 @@ Proof.
   destruct ex; cbn [fst]; [apply P_R; exact HP|].
   eapply R_trans; [apply P_R; exact HP|].
   match goal with |- R c1 (fold_left ?f types ?x) => set (c2 := x); set (c3 := fold_left f types c2) end.
-  destruct (fold_add_keeps types (HCall (next_cid c1)) c2) as (K1 & K2 & K3). fold c3 in K1, K2, K3. cbn in K1, K2, K3.
-  split.
+  destruct (fold_add_keeps types (HCall (next_cid c1)) c2) as (K1 & K2 & K3 & K4). fold c3 in K1, K2, K3, K4. cbn in K1, K2, K3, K4.
+  constructor.
   - constructor.
     + rewrite K2. lia.
     + intros ty cid L H. destruct (in_fold_add _ _ _ _ H) as [H1|[H1 _]]; [exact H1|]. cbn in H1. injection H1 as H1. lia.
@@ -484,6 +520,10 @@ Proof.
       apply NoDup_app_singleton; [exact B3|]. intro H. apply in_map_iff in H. destruct H as (k & E & I).
       rewrite Forall_forall in B2. specialize (B2 k I). cbn in B2. lia.
     + intros w H. rewrite K3 in H. rewrite K2. apply in_app_or in H. destruct H as [H|[<-|[]]]; [specialize (B4 w H); lia|lia].
+  - intros k' H. rewrite K1 in H. apply in_app_or in H. destruct H as [H|[H|[]]].
+    + left. exists k'. split; [exact H|apply srel_refl].
+    + right. subst k'. split; [intros d Hd; cbn in *; congruence|cbn; rewrite K4; lia].
+  - rewrite K4. lia.
 Qed.
 
 (* ---------------------------------------------------------------- the finally block removes everything *)
@@ -703,11 +743,13 @@ Proof.
       eapply R_trans; [apply P_R; exact H0|]. eapply R_trans; [apply P_R; exact HX|].
       match goal with |- R c1 (set_task ?x _ _) => apply (R_trans c1 x); [|apply P_R, P_pv, pv_set_task] end.
       pose proof (p_n _ _ HX) as N1. cbn in N1.
-      split.
+      constructor.
       * constructor; cbn; auto; [lia|]. intros k' H _ T. exists k'. auto.
       * intros [B1 B2 B3 B4]. constructor; cbn; auto.
         -- eapply Forall_impl; [|exact B2]. cbn. intros a Ha. lia.
         -- intros w Hw. specialize (B4 w Hw). lia.
+      * intros k' H. left. exists k'. split; [exact H|apply srel_refl].
+      * cbn. lia.
     + apply some_pair_inv in E. destruct E as [<- _]. eapply R_trans; [apply P_R; exact H0|exact HB].
   - (* LSend *)
     pose proof (P_send_messages c tys) as S. destruct (send_messages c tys) as [[c1 o1] ex]. cbn [fst] in S.
@@ -743,7 +785,10 @@ Proof.
       first [exact S | eapply P_trans; [exact S|apply P_pv; reflexivity]].
   - (* LLost *) destruct (transport c); try discriminate. sameP E.
   - (* LWriteFails *) sameP E.
-  - (* LAdvance *) destruct (_ && _); [|discriminate]. sameP E.
+  - (* LAdvance *) destruct (_ && _) eqn:Eg; [|discriminate]. apply some_pair_inv in E. destruct E as [<- _].
+    apply andb_true_iff in Eg. destruct Eg as [Eg _]. apply Z.leb_le in Eg.
+    constructor; [constructor; cbn; auto; intros k' H _ T; exists k'; auto|intros [B1 B2 B3 B4]; constructor; auto| |cbn; exact Eg].
+    intros k' H. left. exists k'. split; [exact H|apply srel_refl].
   - (* LWake *)
     destruct t.
     + apply P_R. eapply P_wake_start. exact E.
@@ -780,7 +825,7 @@ Proof.
       apply some_pair_inv in E. destruct E as [<- _]. apply P_R. eapply P_trans; [|apply P_cancel_task]. apply P_pv. reflexivity.
     + destruct (get_call c cid) as [kk|]; [|discriminate]. destruct (due _ _); [|discriminate].
       apply some_pair_inv in E. destruct E as [<- _]. apply P_R. apply P_upd_call. intro x. unfold trel.
-      destruct (c_fut x); cbn; auto.
+      destruct (c_fut x); cbn; auto 6.
     + destruct (pc (t_disc c)); try discriminate. destruct (due _ _); [|discriminate]. sameP E.
 Qed.
 
@@ -795,8 +840,8 @@ Proof.
   - destruct (step c l) as [[c1 o]|] eqn:Es; [|discriminate].
     destruct (run c1 ls) as [[c2 os2]|] eqn:Er; [|discriminate].
     apply some_pair_inv in E. destruct E as [<- _].
-    pose proof (step_R c l c1 o HO Es) as [Q1 O1]. destruct (IH c1 c2 os2 (O1 HO) Er) as [R2 O2].
-    split; [eapply R_trans; [split; [exact Q1|exact O1]|exact R2]|exact O2].
+    pose proof (step_R c l c1 o HO Es) as R1. destruct (IH c1 c2 os2 (r_o _ _ R1 HO) Er) as [R2 O2].
+    split; [eapply R_trans; [exact R1|exact R2]|exact O2].
 Qed.
 
 Lemma get_call_lt c cid k : OT c -> get_call c cid = Some k -> (cid < next_cid c)%nat.
@@ -807,7 +852,7 @@ Qed.
 
 Lemma stays_clean c cid ls c' os : OT c -> (cid < next_cid c)%nat -> ~ res c cid -> run c ls = Some (c', os) -> ~ res c' cid.
 Proof.
-  intros HO L CL E Hr. destruct (run_R ls c c' os HO E) as [[Q1 _] _]. apply CL. eapply Q_res; eassumption.
+  intros HO L CL E Hr. destruct (run_R ls c c' os HO E) as [[Q1 _ _ _] _]. apply CL. eapply Q_res; eassumption.
 Qed.
 
 (* a request/response call: the wake-up that ends it (result, time-out, cancellation, connection error alike) leaves no handler,
@@ -831,7 +876,7 @@ Theorem unsent_call_registers_nothing n e ka scr l1 c1 os1 send types ap st tmo 
   t = TCall (next_cid c1) /\ ~ res c2 (next_cid c1) /\ ~ res c3 (next_cid c1).
 Proof.
   intros E1 Es Hin E2. destruct (run_R l1 _ _ _ (OT_init n e ka scr) E1) as [_ O1].
-  pose proof (step_R _ _ _ _ O1 Es) as [Q2 O2]. specialize (O2 O1).
+  pose proof (step_R _ _ _ _ O1 Es) as [Q2 O2 _ _]. specialize (O2 O1).
   cbn [step] in Es.
   match type of Es with context [call_begin ?x ?a ?b ?d ?ee ?f ?g] =>
     assert (H0 : P c1 x) by (apply P_pv; reflexivity);
@@ -867,7 +912,7 @@ Theorem hello_call_leaves_nothing n e ka scr l1 c1 os1 cid c2 o l2 c3 os3 :
   ~ res c2 cid /\ ~ res c3 cid.
 Proof.
   intros E1 Hpc Es E2. destruct (run_R l1 _ _ _ (OT_init n e ka scr) E1) as [_ O1].
-  cbn [step] in Es. destruct (wake_finish_R c1 c2 o Es O1) as ([Q2 O2] & CL). specialize (CL cid Hpc). specialize (O2 O1).
+  cbn [step] in Es. destruct (wake_finish_R c1 c2 o Es O1) as ([Q2 O2 _ _] & CL). specialize (CL cid Hpc). specialize (O2 O1).
   assert (L : (cid < next_cid c2)%nat).
   { unfold wake_finish in Es. cbn [get_task] in Es. rewrite Hpc in Es. destruct (get_call c1 cid) as [kk|] eqn:G; [|discriminate].
     pose proof (get_call_lt _ _ _ O1 G). pose proof (q_n _ _ Q2). lia. }
@@ -880,7 +925,7 @@ Theorem disconnect_call_leaves_nothing n e ka scr l1 c1 os1 cid c2 o l2 c3 os3 :
   ~ res c2 cid /\ ~ res c3 cid.
 Proof.
   intros E1 Hpc Es E2. destruct (run_R l1 _ _ _ (OT_init n e ka scr) E1) as [_ O1].
-  cbn [step] in Es. destruct (wake_disc_R c1 c2 o Es O1) as ([Q2 O2] & CL). specialize (CL cid Hpc). specialize (O2 O1).
+  cbn [step] in Es. destruct (wake_disc_R c1 c2 o Es O1) as ([Q2 O2 _ _] & CL). specialize (CL cid Hpc). specialize (O2 O1).
   assert (L : (cid < next_cid c2)%nat).
   { unfold wake_disc in Es. cbn [get_task] in Es. rewrite Hpc in Es. destruct (get_call c1 cid) as [kk|] eqn:G; [|discriminate].
     pose proof (get_call_lt _ _ _ O1 G). pose proof (q_n _ _ Q2). lia. }
@@ -892,3 +937,20 @@ Theorem call_handlers_typed n e ka scr ls c os ty cid :
   run (init n e ka scr) ls = Some (c, os) -> In (ty, HCall cid) (handlers c) ->
   exists k, get_call c cid = Some k /\ In ty (c_types k).
 Proof. intros E H. destruct (run_R ls _ _ _ (OT_init n e ka scr) E) as [_ O1]. exact (o_h _ O1 ty cid H). Qed.
+
+(* ---------------------------------------------------------------- the timers of calls are exact *)
+Definition CB (c : conn) : Prop := Forall (fun k => cinv k /\ c_sent_at k <= now c) (calls c).
+Lemma CB_R c c' : R c c' -> CB c -> CB c'.
+Proof.
+  intros [_ _ K N] H. unfold CB in *. rewrite Forall_forall in *. intros k' I'.
+  destruct (K k' I') as [(k & I & S)|F]; [|exact F]. destruct (H k I) as [H1 H2].
+  split; [eapply cinv_srel; eassumption|]. destruct S as (S1 & _). rewrite S1. lia.
+Qed.
+Theorem call_timers_exact n e ka scr ls c os k d :
+  run (init n e ka scr) ls = Some (c, os) -> In k (calls c) -> c_timer k = Some d ->
+  d = c_sent_at k + c_timeout k /\ c_sent_at k <= now c.
+Proof.
+  intros E I T. destruct (run_R ls _ _ _ (OT_init n e ka scr) E) as [HR _].
+  assert (H : CB c) by (eapply CB_R; [exact HR|constructor]).
+  unfold CB in H. rewrite Forall_forall in H. destruct (H k I) as [H1 H2]. split; [apply H1; exact T|exact H2].
+Qed.
